@@ -92,6 +92,7 @@ func runC04(p *eng.Prog, r *eng.Report, tier string) {
 	c04WrappersDoNotRetry(c, "C04.11")
 	deadlineWatchersArmedAtOnce(c, "C04.12")
 	c04ExpiredDeadlineIsInThePast(c, "C04.4")
+	c04AdaptersReportEveryFault(c, "C04.13")
 	c04NoPanic(c, neg)
 	// a fault that panics is not "failing closed": decoder API misuse that
 	// panics on a peer's stream error (C04.6)
@@ -851,4 +852,26 @@ func c04ExpiredDeadlineIsInThePast(c *cx, id string) {
 		}
 	}
 	c.r.Floor(id, "expiring deadline calls in the watchers", n, 2)
+}
+
+// c04AdaptersReportEveryFault (C04.13): "no fault of the connection is
+// swallowed" starts below the negotiation functions: every byte goes through
+// the net.Conn adapters of package xmpp (conn wraps a plain io.ReadWriter,
+// teeConn copies the traffic). E-err over their methods: an error that the
+// wrapped Read / Write / Close reports is returned on every path - also when
+// data came with it (encoding/xml's buffered reader delivers the data first
+// and the error with the next read; an adapter that returns (n, nil) for
+// (n>0, err) and reads on loses the fault for good when the transport
+// recovers).
+func c04AdaptersReportEveryFault(c *cx, id string) {
+	var fns []*eng.Fn
+	for _, f := range c.allFns() {
+		if strings.HasPrefix(f.Short, "xmpp.(*conn).") || strings.HasPrefix(f.Short, "xmpp.conn.") || strings.HasPrefix(f.Short, "xmpp.teeConn.") || strings.HasPrefix(f.Short, "xmpp.(*teeConn).") {
+			if f.ErrResultIndex() >= 0 {
+				fns = append(fns, f)
+			}
+		}
+	}
+	c.r.Floor(id, "error-returning methods of the connection adapters", len(fns), 6)
+	errDiscipline(c, id, fns, nil, false)
 }
